@@ -333,6 +333,13 @@ Definition X_abort := [XSubmit 0; XSubmit 1; XDeliver 0; XDeliver 1; XDeliver 0;
 
 Definition quiescent (W : workload) (s : state) : Prop := queue s = [] /\ has_pending s W = false.
 
+Definition final (W : workload) (fx : fixes) (ls : list label) : state :=
+  match steps_gen W fx (init W) ls with Some s => s | None => init W end.
+Definition is_some {A} (o : option A) : bool := match o with Some _ => true | None => false end.
+Lemma final_some : forall W fx ls, is_some (steps_gen W fx (init W) ls) = true ->
+  steps_gen W fx (init W) ls = Some (final W fx ls).
+Proof. intros W fx ls H. unfold final. destruct (steps_gen W fx (init W) ls); [reflexivity|discriminate]. Qed.
+
 (* #2: re-submitting a failed job: the counter goes negative and wait() blocks for ever
    although every job has returned *)
 Theorem resubmit_counter_refuted : exists W ls s, wf W = true /\ steps_prefix W (init W) ls = Some s /\
@@ -340,7 +347,8 @@ Theorem resubmit_counter_refuted : exists W ls s, wf W = true /\ steps_prefix W 
   (forall j, (j < njobs W)%nat -> exists r, pc (jobs s j) = PReturned r).
 Proof.
   exists W_resubmit, (expand W_resubmit no_fix (init W_resubmit) X_resubmit).
-  eexists. split; [reflexivity|]. split; [vm_compute; reflexivity|].
+  exists (final W_resubmit no_fix (expand W_resubmit no_fix (init W_resubmit) X_resubmit)).
+  split; [reflexivity|]. split; [apply final_some; vm_compute; reflexivity|].
   split; [vm_compute; reflexivity|]. split; [split; vm_compute; reflexivity|]. split; [vm_compute; reflexivity|].
   intros j L. change (njobs W_resubmit) with 2%nat in L.
   destruct j as [|[|j]]; [eexists; vm_compute; reflexivity|eexists; vm_compute; reflexivity|exfalso; lia].
@@ -351,7 +359,8 @@ Theorem ready_overwrite_refuted : exists W ls s j, wf W = true /\ steps_prefix W
   pc (jobs s j) = PReturned READY /\ launches (jobs s j) = 1%nat /\ j_code (spec W j) = 0.
 Proof.
   exists W_overwrite, (expand W_overwrite no_fix (init W_overwrite) X_overwrite).
-  eexists. exists 0%nat. split; [reflexivity|]. split; [vm_compute; reflexivity|].
+  exists (final W_overwrite no_fix (expand W_overwrite no_fix (init W_overwrite) X_overwrite)).
+  exists 0%nat. split; [reflexivity|]. split; [apply final_some; vm_compute; reflexivity|].
   repeat split; vm_compute; reflexivity.
 Qed.
 
@@ -361,21 +370,21 @@ Theorem abort_race_refuted : exists W ls s j, wf W = true /\ steps_prefix W (ini
   (forall t, avail s t = total W t) /\ wst s = WBlocked.
 Proof.
   exists W_abort, (expand W_abort no_fix (init W_abort) X_abort).
-  eexists. exists 1%nat. split; [reflexivity|]. split; [vm_compute; reflexivity|].
+  exists (final W_abort no_fix (expand W_abort no_fix (init W_abort) X_abort)).
+  exists 1%nat. split; [reflexivity|]. split; [apply final_some; vm_compute; reflexivity|].
   split; [split; vm_compute; reflexivity|].
-  repeat split; try (vm_compute; reflexivity).
-  intros t. destruct t as [|[|t]]; vm_compute; reflexivity.
+  split; [vm_compute; reflexivity|]. split; [vm_compute; reflexivity|]. split; [vm_compute; reflexivity|].
+  split; [|vm_compute; reflexivity].
+  intros t. destruct t as [|t]; vm_compute; reflexivity.
 Qed.
 
 (* the same schedules on the repaired scheduler end well *)
 Example repaired_runs_end_well :
-  (exists s, steps W_resubmit (init W_resubmit) (expand W_resubmit all_fixed (init W_resubmit) (X_resubmit ++ [XDeliver 1])) = Some s /\
+  (let s := final W_resubmit all_fixed (expand W_resubmit all_fixed (init W_resubmit) (X_resubmit ++ [XDeliver 1])) in
      unfinished s = 0) /\
-  (exists s, steps W_overwrite (init W_overwrite) (expand W_overwrite all_fixed (init W_overwrite) X_overwrite) = Some s /\
+  (let s := final W_overwrite all_fixed (expand W_overwrite all_fixed (init W_overwrite) X_overwrite) in
      pc (jobs s 0) = PReturned DONE /\ wst s = WReturned) /\
-  (exists s, steps W_abort (init W_abort) (expand W_abort all_fixed (init W_abort)
-       (X_abort ++ [XDeliver 1; XDeliver 1; XDeliver 1; XDeliver 1])) = Some s /\
+  (let s := final W_abort all_fixed (expand W_abort all_fixed (init W_abort)
+       (X_abort ++ [XDeliver 1; XDeliver 1; XDeliver 1; XDeliver 1])) in
      pc (jobs s 1) = PReturned DONE /\ wst s = WReturned).
-Proof.
-  split; [|split]; eexists; repeat split; vm_compute; reflexivity.
-Qed.
+Proof. repeat split; vm_compute; reflexivity. Qed.
